@@ -10,6 +10,7 @@ import CBV.Lemmas.C06Num
 import CBV.Lemmas.C06Fmt
 import CBV.Lemmas.C06Repr
 import CBV.Lemmas.C06Lex
+import CBV.Lemmas.C06ReprGen
 import Mathlib.Data.String.Basic
 import CBV.Gen.TC06
 
@@ -398,6 +399,16 @@ theorem T_C06_payload (p : NumV3) (ps : List NumV3) :
   simp only [vectorTokens, vectorFormat, List.map_cons, List.map_nil, List.mem_cons, List.not_mem_nil, or_false] at hs
   rcases hs with rfl | rfl | rfl <;> exact T_C06_fmt_wellformed 8 (by decide) _ _
 
+/-- **T_C06_sphere_geometry.** The geometry entry a sphere shape brings: `origin` and `centre` are the same `vector_format` of the
+    centre — three well-formed `%.8f` tokens — and the radius is `str(radius)`. -/
+theorem T_C06_sphere_geometry (label : String) (c : NumV3) (r : PyNum) :
+    (sphereGeometry label c r).name = label ∧
+    (sphereGeometry label c r).props =
+      [[.atom "type", .atom "searchableSphere"], [.atom "origin", .paren ((vectorTokens c.pos c.neg).map .atom)],
+       [.atom "centre", .paren ((vectorTokens c.pos c.neg).map .atom)], [.atom "radius", .atom r.str]] ∧
+    ∀ s ∈ vectorTokens c.pos c.neg, isFixedToken 8 s.toList = true :=
+  ⟨rfl, rfl, (T_C06_payload c []).2.2.2⟩
+
 /-! ### `str(float)`: grading values and VTK coordinates -/
 
 /-- **T_C06_repr_value.** A token accepted by the validator `reprOk` for the double `x ≠ 0` denotes a rational within
@@ -429,6 +440,40 @@ example : tenth ≠ 0 ∧ tenth.den = 2 ^ Nat.log2 tenth.den ∧ reprOk false te
 example : pyRepr false tenth = "0.1" ∧ pyRepr false 27 = "27.0" ∧ pyRepr false (1 / 100000) = "1e-05" ∧
     pyRepr false 10000000000000000 = "1e+16" ∧ pyRepr true (-(3 / 2)) = "-1.5" ∧
     pyRepr false (5224175567749775 / 4503599627370496) = "1.16" ∧ floatTextOk false tenth = true := by decide +kernel
+
+/- Full statement (not proved): for every double `x` (53-bit dyadic, normal range) and its sign bit `neg`,
+   `reprOk neg x (pyReprChars neg x) = true`.  Proved below: the *decimal* the generator chooses.  Missing:
+   (a) the hypothesis of the theorem — `shortestFrom … 17 1` finds a candidate — is the binary64 spacing fact that the correctly
+       rounded 17-digit decimal of a double lies within half an ulp of it (10^(dp−17)/2 < 2^(⌊log2 x⌋−53) fails for no normal double);
+   (b) `floatValue (reprLayout (Nat.toDigits 10 m') (|digits| + e')) = some (m'·10^e')` for the four layouts (fixed with leading
+       zeros, integer with `.0`, fixed with an inner point, exponent form).  Both are checked at run time on every printed number
+       (`num=` flag: `floatTextOk`). -/
+
+/-- **T_C06_repr_generated_partial.** Whenever the digit search of `pyRepr` finds a candidate `(m, e)` for `x`, the decimal it prints
+    — `m'·10^e'` after stripping trailing zeros — is the same number, lies in the rounding interval of `|x|` (so it reads back to
+    `x`, within half an ulp), and no correctly rounded decimal with fewer significant digits (from 1 digit on) lies in it:
+    the generator prints a *shortest* decimal that rounds to `x`. -/
+theorem T_C06_repr_generated_partial (x : Rat) (m : Nat) (e : Int)
+    (h : shortestFrom x (absR x) (decPoint (absR x)) 17 1 = some (m, e)) :
+    let me := stripZeros 20 m e
+    let q := ((me.1 : Nat) : Rat) * pow10R me.2
+    q = ((m : Nat) : Rat) * pow10R e ∧
+    inRound (absR x) q = true ∧
+    (q - absR x ≤ halfUlp (absR x) ∧ absR x - q ≤ halfUlp (absR x)) ∧
+    ∃ k : Nat, 1 ≤ k ∧ k ≤ 17 ∧ e = -((k : Int) - decPoint (absR x)) ∧
+      ∀ j : Nat, 1 ≤ j → j < k →
+        inRound (absR x) (((roundHalfEven (absR x * pow10R ((j : Int) - decPoint (absR x))) : Nat) : Rat) *
+          pow10R (-((j : Int) - decPoint (absR x)))) = false := by
+  intro me q
+  have hv : q = ((m : Nat) : Rat) * pow10R e := stripZeros_value 20 m e
+  have hin : inRound (absR x) q = true := by rw [hv]; exact shortestFrom_sound x (absR x) _ 17 1 m e h
+  obtain ⟨k, hk1, hk2, he, _, hall⟩ := shortestFrom_first x (absR x) _ 17 1 m e h
+  exact ⟨hv, hin, inRound_close _ _ hin, k, hk1, by omega, he, hall⟩
+
+/-- the hypothesis holds, e.g., for the double nearest to 0.1 (one digit suffices) and for 1.16 (three digits) -/
+example : shortestFrom tenth (absR tenth) (decPoint (absR tenth)) 17 1 = some (1, -1) ∧
+    shortestFrom (5224175567749775 / 4503599627370496) (absR (5224175567749775 / 4503599627370496))
+      (decPoint (absR (5224175567749775 / 4503599627370496))) 17 1 = some (116, -2) := by decide +kernel
 
 /-! ### the debug VTK -/
 
